@@ -375,7 +375,9 @@ def em_case(draw):
                 cols = [draw(gen.column(k_of(v), ("dense",))) for _ in range(ncol)]
                 init.append({"var": v, "parents": ps, "table": [[cols[j][i] for j in range(ncol)] for i in range(k_of(v))]})
     return {"obs": obs, "lat": lat, "edges": edges, "card": card, "lcard": lcard, "rows": rows, "init": init,
-            "seed": draw(st.integers(0, 1000)), "iters": draw(st.integers(3, 5))}
+            "seed": draw(st.integers(0, 1000)), "iters": draw(st.integers(3, 5)),
+            # the E-step works on batches of distinct rows: sizes that do not divide their number leave a partial last batch
+            "batch_size": draw(st.sampled_from([1000, 1000, 1, 2, 3, 5, 7]))}
 
 
 def _obs_loglik(cpds, case, states):
@@ -464,7 +466,7 @@ def check_em(case, out):
         em = out.call("EM", ExpectationMaximization, mk(), df)
         if em is RAISED:
             return
-        cpds = out.call("EM.get_parameters", em.get_parameters, latent_card=dict(case["lcard"]) or None, max_iter=k, seed=case["seed"], n_jobs=1, show_progress=False, init_cpds=init_cpds())
+        cpds = out.call("EM.get_parameters", em.get_parameters, latent_card=dict(case["lcard"]) or None, max_iter=k, seed=case["seed"], n_jobs=1, show_progress=False, batch_size=case.get("batch_size", 1000), init_cpds=init_cpds())
         out.evals += 1
         if cpds is RAISED:
             return
@@ -486,7 +488,7 @@ def check_em(case, out):
             break
     # determinism given the seed
     em = ExpectationMaximization(mk(), df)
-    again = out.call("EM.get_parameters[repeat]", em.get_parameters, latent_card=dict(case["lcard"]) or None, max_iter=case["iters"], seed=case["seed"], n_jobs=1, show_progress=False, init_cpds=init_cpds())
+    again = out.call("EM.get_parameters[repeat]", em.get_parameters, latent_card=dict(case["lcard"]) or None, max_iter=case["iters"], seed=case["seed"], n_jobs=1, show_progress=False, batch_size=case.get("batch_size", 1000), init_cpds=init_cpds())
     if again is not RAISED and last is not None:
         a = {c.variable: cpd_named(c) for c in again}
         b = {c.variable: cpd_named(c) for c in last}
